@@ -14,20 +14,20 @@ Definition word_at (data : bytes) (k l : nat) : N := le_value (firstn 4 (skipn (
 
 (* the lane as one big number: sum_k word(k,l) * 2^(32k) *)
 Fixpoint lane_number (data : bytes) (l : nat) (k : nat) : N :=
-  match k with O => 0 | S k' => lane_number data l k' + word_at data k' l * 2 ^ (32 * N.of_nat k') end.
+  match k with O => 0 | S k' => lane_number data l k' + N.shiftl (word_at data k' l) (32 * N.of_nat k') end.
 
 Definition bp4x_unpack (w : N) (data : bytes) : list N :=
   let lanes := map (fun l => lane_number data l (N.to_nat w)) (seq 0 LANES) in
   map (fun idx => let i := Nat.div idx LANES in
                   let l := Nat.modulo idx LANES in
-                  (nth l lanes 0 / 2 ^ (N.of_nat i * w)) mod 2 ^ w) (seq 0 BLOCKn).
+                  N.land (N.shiftr (nth l lanes 0) (N.of_nat i * w)) (N.ones w)) (seq 0 BLOCKn).
 
 Fixpoint lane_pack (w : N) (vals : list N) (l : nat) (i : nat) : N :=
-  match i with O => 0 | S i' => lane_pack w vals l i' + nth (LANES * i' + l) vals 0 * 2 ^ (N.of_nat i' * w) end.
+  match i with O => 0 | S i' => lane_pack w vals l i' + N.shiftl (nth (LANES * i' + l) vals 0) (N.of_nat i' * w) end.
 
 Definition bp4x_pack (w : N) (vals : list N) : bytes :=
   let lanes := map (fun l => lane_pack w vals l REGS) (seq 0 LANES) in
-  flat_map (fun k => flat_map (fun l => le_bytes 4 ((nth l lanes 0 / 2 ^ (32 * N.of_nat k)) mod 2 ^ 32)) (seq 0 LANES))
+  flat_map (fun k => flat_map (fun l => le_bytes 4 (N.land (N.shiftr (nth l lanes 0) (32 * N.of_nat k)) (N.ones 32))) (seq 0 LANES))
            (seq 0 (N.to_nat w)).
 
 Example bp4x_roundtrip_sample :
